@@ -143,6 +143,10 @@ type c20peer struct {
 	answerEnr  bool   // whether the FINDNODES(0) the node then sends is answered (with the unchanged record)
 	pongType   uint16
 	pongRadius *big.Int
+	// unsure: what the node records for this peer is no longer determined by what the harness saw (the peer was
+	// handed to the node while it could not enter the table, or left the table after a report): it is judged neither
+	// as a target nor as a candidate until it reports again while it is a table entry
+	unsure bool
 }
 
 func runC20(seed uint64) {
@@ -359,6 +363,7 @@ func runC20(seed uint64) {
 			cp.pongSet = false
 			if counted {
 				cp.radius = rad
+				cp.unsure = false
 				w.probe(fmt.Sprintf("report_via%d_type%d", via, ptype))
 			} else {
 				w.probe("report_not_counted")
@@ -390,14 +395,30 @@ func runC20(seed uint64) {
 				// already an entry: nothing is added, what the peer reported stands
 				w.probe("readd_existing_entry")
 			case inTable(cp.node.ID()):
-				// a new entry made by the operator: recorded with the maximum radius until it reports
-				cp.radius = new(big.Int).Set(maxU256)
-				w.probe("readd_new_entry")
+				// now an entry. If the operator's call made it one, the node records the maximum radius until the
+				// peer reports. It may also have become one by promotion from the replacement list a moment later
+				// (the call itself found it there and added nothing): then the node records nothing for it. Which
+				// of the two happened is not observable from outside; the model follows the node if it records
+				// exactly the maximum, and otherwise stops judging this peer until it reports as an entry.
+				maxLE := bytes.Repeat([]byte{0xff}, 32)
+				if got, has := vp.p.VerifRadiusOf(cp.node.ID()); has && bytes.Equal(got, maxLE) {
+					cp.radius = new(big.Int).Set(maxU256)
+					cp.unsure = false
+					w.probe("readd_new_entry")
+				} else {
+					cp.unsure = true
+					w.probe("readd_entry_by_promotion")
+				}
+			default:
+				// the record could not enter the table (full bucket): the peer had left the table earlier, and
+				// what the node still records for it is its own business until it is an entry again
+				cp.unsure = true
+				w.probe("readd_not_added")
 			}
 			w.op("readd#%d %s (was in table: %v)", opi, cp.pup.cfg.name, was)
 			w.abstract("readd %v", was)
 			got, has := vp.p.VerifRadiusOf(cp.node.ID())
-			if cp.radius != nil {
+			if cp.radius != nil && !cp.unsure {
 				want := make([]byte, 32)
 				be := cp.radius.Bytes()
 				for i := range be {
@@ -535,6 +556,9 @@ func runC20(seed uint64) {
 					w.violate("C20", "target-not-in-table", "target %s is not a routing table node", n.ID().TerminalString())
 					continue
 				}
+				if cp.unsure {
+					continue
+				}
 				if cp.radius == nil {
 					w.violate("C20", "unknown-radius-target", "target %s never reported a radius", n.ID().TerminalString())
 					continue
@@ -550,7 +574,7 @@ func runC20(seed uint64) {
 			var sure []*c20peer
 			for _, n := range table {
 				cp := peers[n.ID()]
-				if cp == nil || !covered(cp) || (src != nil && n.ID() == *src) {
+				if cp == nil || cp.unsure || !covered(cp) || (src != nil && n.ID() == *src) {
 					continue
 				}
 				if len(table) <= 32 || enode.LogDist(n.ID(), cid) < cut {
